@@ -129,10 +129,13 @@ void w_begin(void);                                          /* drop previous wo
 extern bool NEXT_WORLD_USE_MUTEX;                            /* the next world is initialised with the mock mutex interface */
 struct cat_command *w_group(size_t ncmd, bool disable);      /* returns the group's zeroed command array */
 struct cat_variable *w_vars(struct cat_command *c, size_t nv);
+extern unsigned EMPTY_TABLE_PM;                              /* per-mille of w_vars(c, 0) calls that leave var pointing at an empty table instead of NULL */
 void *w_vdata(struct cat_variable *v, size_t size);          /* exact-size storage */
 void w_buffers(size_t bufsz, bool shared, size_t ubufsz);
 void w_init(int fillmode);                                   /* allocate object (0: zero, 1: garbage fill) + cat_init */
-void w_reinit(int fillmode);                                 /* fresh object on the same descriptor */
+void w_reinit(int fillmode);                                 /* fresh object on the same descriptor (3: cat_init on the same, used object) */
+extern unsigned PRELIFE_PCT, SHADOW_PCT;                     /* share of garbage-filled objects that were a different parser before / of worlds that run next to a second parser instance */
+void shadow_step(void);
 int cmd_index(const struct cat_command *c);
 bool cmd_enabled(int i);
 int var_locate(const struct cat_variable *v, int *vi);       /* returns command index */
@@ -178,6 +181,7 @@ extern void (*ON_PHASE)(int code);                       /* codes 0..4 from the 
 extern int MX_DEPTH; extern long MX_LOCKS, MX_UNLOCKS;
 extern long MX_FAIL_LOCK_AT, MX_FAIL_UNLOCK_AT;          /* -1: never; else fail the k-th call (0-based) */
 extern void (*ON_LOCK)(bool is_lock, int result);
+extern void (*ON_LOCK_WAIT)(long k);                      /* entry of the k-th mutex->lock call, before the lock is granted */
 
 /* ---------------------------------------------------------- unit tracker */
 struct prod {
